@@ -77,14 +77,20 @@ func classifyParts(c *Ctx, rule, rel string, kinds map[string]int64) map[string]
 // as a classifier of its own and adding its rejected lengths.
 func runClassifierWithLenHelper(c *Ctx, f *core.Func, env *core.AbsEnv, domain core.IvSet, fns map[types.Object]*core.Func, kv int64) core.ClassResult {
 	info := f.Info()
-	body := f.Body.List
+	var body []ast.Stmt
+	for _, st := range f.Body.List {
+		if len(body) == 0 && core.Inert(info, st) {
+			continue // inert statements before the length test
+		}
+		body = append(body, st)
+	}
 	var lenRej core.IvSet
 	if len(body) > 0 {
 		if is, ok := body[0].(*ast.IfStmt); ok && is.Init == nil {
 			if u, ok := ast.Unparen(is.Cond).(*ast.UnaryExpr); ok && u.Op == token.NOT {
 				if call, ok := ast.Unparen(u.X).(*ast.CallExpr); ok {
-					if h := fns[core.Callee(info, call)]; h != nil && len(is.Body.List) == 1 {
-						if rs, ok := is.Body.List[0].(*ast.ReturnStmt); ok && core.ExprString(rs.Results[0]) == "false" {
+					if h := fns[core.Callee(info, call)]; h != nil {
+						if rs := core.SoleReturn(info, is.Body); rs != nil && len(rs.Results) == 1 && core.ExprString(rs.Results[0]) == "false" {
 							var hk types.Object
 							for _, fl := range h.Type.Params.List {
 								for _, n := range fl.Names {
@@ -241,14 +247,25 @@ func runC13(c *Ctx) {
 	if f := c.Fn("C13-R1b", namesPkg, "Name.IsFullyQualified"); f != nil {
 		info := f.Info()
 		s := ""
-		if len(f.Body.List) == 1 {
-			if rs, ok := f.Body.List[0].(*ast.ReturnStmt); ok {
+		{
+			if rs := core.SoleReturn(info, f.Body); rs != nil {
 				s = core.ExprString(rs.Results[0])
 			}
 		}
 		ok := len(core.CallsTo(info, f.Body, false, namesPkg+".Name.IsValid")) == 1
+		nonEmpty := map[string]bool{}
+		ast.Inspect(f.Body, func(x ast.Node) bool {
+			if be, isB := x.(*ast.BinaryExpr); isB && be.Op == token.NEQ {
+				if v, isS := core.ConstString(info, be.Y); isS && v == "" {
+					if fv := core.FieldVar(info, be.X); fv != nil {
+						nonEmpty[fv.Name()] = true
+					}
+				}
+			}
+			return true
+		})
 		for _, p := range []string{"h", "n", "m", "t"} {
-			if !strings.Contains(s, "n."+p+" != \"\"") {
+			if !nonEmpty[p] {
 				ok = false
 			}
 		}
@@ -295,7 +312,7 @@ func runC13(c *Ctx) {
 		// the join operand is the validated parameter (after ReplaceAll), on the match edge
 		joins := g.FindCalls("path/filepath.Join")
 		c.Expect("C13-R2", "joins in GetBlobsPath", len(joins), 1)
-		dp := paramObj(f, "digest")
+		dp := paramAt(f, 0)
 		for _, j := range joins {
 			jc := j.Node.(*ast.CallExpr)
 			last := jc.Args[len(jc.Args)-1]
@@ -641,19 +658,32 @@ func joinInventory(c *Ctx) {
 							okNP = false
 							continue
 						}
-						switch {
-						case p.Last() != nil && p.Last().Name() == "dir":
-						case p.Root.Name() == "np":
-							s := false
+						// classify the local by where its value comes from
+						fromNameToPath, fromLinks, fromJoin := false, false, false
+						if len(p.Fields) == 0 {
 							for _, h := range g.FindCalls(blobPkg + ".nameToPath") {
-								if r, _ := g.OnSuccessOf(h, g.Locate(call)); r {
-									s = true
+								if core.ResultVar(info, h.Top, h.Node.(*ast.CallExpr), 0) == p.Root {
+									if r, _ := g.OnSuccessOf(h, g.Locate(call)); r {
+										fromNameToPath = true
+									}
 								}
 							}
-							if !s {
-								okNP = false
+							for _, rl := range rangeLoops(fn) {
+								if lc, isC := ast.Unparen(rl.Stmt.X).(*ast.CallExpr); isC && core.CalleeName(info, lc) == blobPkg+".DiskCache.links" {
+									if id, isID := rl.Stmt.Key.(*ast.Ident); isID && info.Defs[id] == p.Root {
+										fromLinks = true
+									}
+								}
 							}
-						case p.Root.Name() == "l" || p.Root.Name() == "maybe":
+							for _, as := range g.AssignsTo(p.Root) {
+								if a, isA := as.Node.(*ast.AssignStmt); isA && len(a.Rhs) == 1 && len(core.CallsTo(info, a.Rhs[0], false, "path/filepath.Join")) == 1 {
+									fromJoin = true // the audited "manifests"+np join itself
+								}
+							}
+						}
+						switch {
+						case p.Last() != nil && p.Last().Name() == "dir":
+						case fromNameToPath, fromLinks, fromJoin:
 						default:
 							okNP = false
 						}
